@@ -949,4 +949,155 @@ theorem fuel_irrelevantI (ts : List Tok) (f : Nat) (hf : boundI T ts ≤ f) :
     | none => rfl
     | some x => rw [(fuel_suffices T f).2.2.1 _ _ hx] at hb; cases hb
 
+/-! ### the ladder reads from the front -/
+
+/-- `rest` is what is left of `ts` after a front part was taken -/
+def Suffix (rest ts : List Tok) : Prop := ∃ pre, ts = pre ++ rest
+
+theorem Suffix.refl (ts : List Tok) : Suffix ts ts := ⟨[], rfl⟩
+theorem Suffix.cons {rest ts} (t : Tok) (h : Suffix rest ts) : Suffix rest (t :: ts) := by
+  obtain ⟨pre, rfl⟩ := h; exact ⟨t :: pre, rfl⟩
+theorem Suffix.trans {a b c} (h1 : Suffix a b) (h2 : Suffix b c) : Suffix a c := by
+  obtain ⟨p1, rfl⟩ := h1; obtain ⟨p2, rfl⟩ := h2; exact ⟨p2 ++ p1, by simp⟩
+
+theorem closeParen_suffix {p x} (h : closeParen p = some x) : Suffix x.2 p.2 := by
+  unfold closeParen at h
+  split at h
+  · next rest' hp => cases h; rw [hp]; exact Suffix.cons _ (Suffix.refl _)
+  · cases h
+theorem expectSonst_suffix {p x} (h : expectSonst p = some x) : Suffix x.2 p.2 := by
+  unfold expectSonst at h
+  split at h
+  · next rest' hp => cases h; rw [hp]; exact Suffix.cons _ (Suffix.refl _)
+  · cases h
+theorem expectOderk_suffix {p x} (h : expectOderk p = some x) : Suffix x.2 p.2 := by
+  unfold expectOderk at h
+  split at h
+  · next rest' hp => cases h; rw [hp]; exact Suffix.cons _ (Suffix.refl _)
+  · cases h
+theorem expectCl_suffix {o p x} (h : expectCl T o p = some x) : Suffix x.2 p.2 := by
+  unfold expectCl at h
+  split at h
+  · split at h
+    · next o' rest' hp =>
+      split at h
+      · cases h; rw [hp]; exact Suffix.cons _ (Suffix.refl _)
+      · cases h
+    · cases h
+  · cases h; exact Suffix.refl _
+
+/-- **The ladder reads from the front and leaves the rest alone**: whatever a rung returns as remaining tokens is a suffix of
+what it was given — no token is dropped from the middle, reordered or invented. -/
+theorem consumes_prefix : ∀ f,
+    (∀ k ts x, parse T f k ts = some x → Suffix x.2 ts) ∧
+    (∀ k l ts x, loop T f k l ts = some x → Suffix x.2 ts) ∧
+    (∀ ts x, parseIf T f ts = some x → Suffix x.2 ts) ∧
+    (∀ l ts x, loopIf T f l ts = some x → Suffix x.2 ts) ∧
+    (∀ ts x, parseX T f ts = some x → Suffix x.2 ts) := by
+  intro f
+  induction f with
+  | zero => refine ⟨?_, ?_, ?_, ?_, ?_⟩ <;> intros <;> simp_all [parse_zero, loop_zero, parseIf_zero, loopIf_zero, parseX_zero]
+  | succ f ih =>
+    obtain ⟨ihp, ihl, ihpI, ihlI, ihpX⟩ := ih
+    refine ⟨?_, ?_, ?_, ?_, ?_⟩
+    · intro k ts x h
+      by_cases hk : k < T.n
+      · rw [parse_chain T hk] at h
+        cases hp : parse T f (k+1) ts with
+        | none => simp [hp] at h
+        | some p =>
+          simp only [hp, Option.bind_some] at h
+          exact (ihl _ _ _ _ h).trans (ihp _ _ _ hp)
+      · cases ts with
+        | nil => simp [parse_nil T hk] at h
+        | cons t rest =>
+          cases t with
+          | atom a => rw [parse_atom T hk] at h; cases h; exact Suffix.cons _ (Suffix.refl _)
+          | bop o => simp [parse_bop T hk] at h
+          | rp => simp [parse_rp T hk] at h
+          | falls => simp [parse_falls T hk] at h
+          | sonst => simp [parse_sonst T hk] at h
+          | entw => simp [parse_entw T hk] at h
+          | oderk => simp [parse_oderk T hk] at h
+          | cls o => simp [parse_cls T hk] at h
+          | uop u =>
+            rw [parse_uop T hk] at h
+            cases hp : parse T f k rest with
+            | none => simp [hp] at h
+            | some p =>
+              simp only [hp, Option.bind_some] at h
+              cases h
+              exact Suffix.cons _ (ihp k rest p hp)
+          | lp =>
+            rw [parse_lp T hk] at h
+            cases hp : parseIf T f rest with
+            | none => simp [hp] at h
+            | some p =>
+              simp only [hp, Option.bind_some] at h
+              exact Suffix.cons _ ((closeParen_suffix h).trans (ihpI _ _ hp))
+    · intro k l ts x h
+      by_cases hb : ∃ o r, ts = .bop o :: r
+      · obtain ⟨o, rest, rfl⟩ := hb
+        by_cases ho : T.lv o = k
+        · rw [loop_bop_eq T ho] at h
+          cases hp : parse T f (k+1) rest with
+          | none => simp [hp] at h
+          | some p0 =>
+            simp only [hp, Option.bind_some] at h
+            cases he : expectCl T o p0 with
+            | none => simp [he] at h
+            | some p =>
+              simp only [he, Option.bind_some] at h
+              exact Suffix.cons _ ((ihl _ _ _ _ h).trans ((expectCl_suffix T he).trans (ihp _ _ _ hp)))
+        · rw [loop_bop_ne T ho] at h; cases h; exact Suffix.refl _
+      · have hb' : ∀ o r, ts ≠ .bop o :: r := fun o r hh => hb ⟨o, r, hh⟩
+        rw [loop_other T hb'] at h; cases h; exact Suffix.refl _
+    · intro ts x h
+      rw [parseIf_succ] at h
+      cases hp : parseX T f ts with
+      | none => simp [hp] at h
+      | some p =>
+        simp only [hp, Option.bind_some] at h
+        exact (ihlI _ _ _ h).trans (ihpX _ _ hp)
+    · intro l ts x h
+      by_cases hb : ∃ r, ts = .falls :: r
+      · obtain ⟨rest, rfl⟩ := hb
+        rw [loopIf_falls] at h
+        cases hp : parseIf T f rest with
+        | none => simp [hp] at h
+        | some p1 =>
+          simp only [hp, Option.bind_some] at h
+          cases he : expectSonst p1 with
+          | none => simp [he] at h
+          | some pc =>
+            simp only [he, Option.bind_some] at h
+            cases hp2 : parseIf T f pc.2 with
+            | none => simp [hp2] at h
+            | some pb =>
+              simp only [hp2, Option.bind_some] at h
+              exact Suffix.cons _ ((ihlI _ _ _ h).trans ((ihpI _ _ hp2).trans ((expectSonst_suffix he).trans (ihpI _ _ hp))))
+      · have hb' : ∀ r, ts ≠ .falls :: r := fun r hh => hb ⟨r, hh⟩
+        rw [loopIf_other T hb'] at h; cases h; exact Suffix.refl _
+    · intro ts x h
+      by_cases hb : ∃ r, ts = .entw :: r
+      · obtain ⟨rest, rfl⟩ := hb
+        rw [parseX_entw] at h
+        cases hp : parse T f 0 rest with
+        | none => simp [hp] at h
+        | some p1 =>
+          simp only [hp, Option.bind_some] at h
+          cases he : expectOderk p1 with
+          | none => simp [he] at h
+          | some pa =>
+            simp only [he, Option.bind_some] at h
+            cases hp2 : parse T f 0 pa.2 with
+            | none => simp [hp2] at h
+            | some pb =>
+              simp only [hp2, Option.bind_some] at h
+              cases h
+              exact Suffix.cons _ ((ihp 0 pa.2 pb hp2).trans ((expectOderk_suffix he).trans (ihp 0 rest p1 hp)))
+      · have hb' : ∀ r, ts ≠ .entw :: r := fun r hh => hb ⟨r, hh⟩
+        rw [parseX_other T hb'] at h
+        exact ihp _ _ _ h
+
 end DDP.LadderParse
